@@ -653,6 +653,12 @@ def _iterator(m, args, ci):
                 break
             out.append(x)
         dty = ci.dest_type(m) or ''
+        if 'FuturesUnordered' in dty:
+            # FromIterator for FuturesUnordered = new() followed by push in iteration order
+            from .lib_tokio import FuturesUnordered
+            fu = FuturesUnordered()
+            fu.items = [Cell(x) for x in out]
+            return fu
         kind = 'str' if 'String' in type_head(dty) else 'vec'
         return Seq(out, kind)
     if meth == 'for_each':
@@ -1227,3 +1233,5 @@ def _vec_default(m, args, ci):
 @I.rx(r'^<(std::option::)?Option as Default>::default$')
 def _option_default(m, args, ci):
     return none()
+
+from . import lib_std2  # noqa: E402  (registers further std contracts)
